@@ -5,6 +5,9 @@ package queue
 // then the queue is closed and reopened and a further message is appended. Every append that
 // returned success reads back byte for byte under a sequence of its own - before and after the
 // reopen and after the further append.
+// thorough: the same threads under pre-emption bound 3 (time-boxed)
+func verifC05Concurrent3() { verifC05Concurrent() }
+
 func verifC05Concurrent() {
 	dir := verifQueueDir5()
 	witness := verifSymBytes("witness", 2)
